@@ -48,8 +48,10 @@ def monitor (c : CaseIn) (r : ObsRun) : Option String :=
   | .panic cls => some s!"run {r.run.name}: panic {cls} without machines"
   | .ok tr =>
     let a := r.run.effArgs c.delay
-    if !capsDoNotBind a c.trace.length tr.length then none else
-    if holds c.trace c.delay a.onlyClientEvents tr then none else
+    -- padding lines of the input (`sp` / `rp`) are not packets of the trace: only its normal lines count
+    let trace := normalLines c.trace
+    if !capsDoNotBind a trace.length tr.length then none else
+    if holds trace c.delay a.onlyClientEvents tr then none else
     some s!"run {r.run.name}: output is not the input trace (oc={a.onlyClientEvents} on={a.onlyNetworkActivity} delay={c.delay})"
 
 end Mb.C14
